@@ -12,6 +12,7 @@ static int g_coin_rate[ZSTD_VC_count + 1];   /* per 1024 */
 static Rng g_coin_rng; static long g_coin_fired[ZSTD_VC_count + 1];
 static size_t g_index_jump;
 static size_t g_vp_val[ZSTD_VP_count + 1];
+static int g_stall_site; static long g_stall_nth, g_stall_len, g_stall_seen[ZSTD_VS_count + 1], g_stall_fired;
 
 void ZSTD_verif_probe(int id) { if (id > 0 && id < ZSTD_VP_count) { g_vp_run[id]++; sim_probe(k_vp_names[id]); } }
 void ZSTD_verif_probe_val(int id, size_t v) { if (id > 0 && id < ZSTD_VP_count) g_vp_val[id] = v; }
@@ -23,7 +24,17 @@ int ZSTD_verif_coin(int site) {
 }
 unsigned ZSTD_verif_indexJump(void) { size_t j = g_index_jump; g_index_jump = 0; return j > 0xFFFFFFFFu ? 0xFFFFFFFFu : (unsigned)j; }
 
-void sim_hooks_reset(uint64_t seed) { memset(g_vp_run, 0, sizeof g_vp_run); memset(g_coin_rate, 0, sizeof g_coin_rate); memset(g_coin_fired, 0, sizeof g_coin_fired); g_index_jump = 0; rng_seed(&g_coin_rng, seed, "coins"); }
+/* stalled-thread fault at a cooperative point: the nth passage of the chosen site deschedules the calling thread.
+ * The sites are passed by several threads; which one is 'the nth' is decided by the (deterministic) schedule. */
+void ZSTD_verif_stall(int site) {
+    if (site <= 0 || site >= ZSTD_VS_count) return;
+    g_stall_seen[site]++;
+    if (site == g_stall_site && g_stall_seen[site] == g_stall_nth) { g_stall_fired++; sim_sched_stall_self(g_stall_len); }
+}
+void sim_hook_set_stall(int site, long nth, long decisions) { g_stall_site = site; g_stall_nth = nth; g_stall_len = decisions; }
+long sim_hook_stall_fired(void) { return g_stall_fired; }
+
+void sim_hooks_reset(uint64_t seed) { g_stall_site = 0; g_stall_nth = g_stall_len = g_stall_fired = 0; memset(g_stall_seen, 0, sizeof g_stall_seen); memset(g_vp_run, 0, sizeof g_vp_run); memset(g_coin_rate, 0, sizeof g_coin_rate); memset(g_coin_fired, 0, sizeof g_coin_fired); g_index_jump = 0; rng_seed(&g_coin_rng, seed, "coins"); }
 long sim_hook_probe_count(int id) { return (id > 0 && id < ZSTD_VP_count) ? g_vp_run[id] : 0; }
 void sim_hook_probe_clear(int id) { if (id > 0 && id < ZSTD_VP_count) g_vp_run[id] = 0; }
 void sim_hook_set_coin(int site, int per1024) { if (site > 0 && site < ZSTD_VC_count) g_coin_rate[site] = per1024; }
